@@ -1427,6 +1427,53 @@ theorem race_atomic_same_attempt :
     c.dres = some true ∧ c.ores = some false ∧ c.s.info = [] := by decide
 
 
+/-- a delete decided after the child's create (or after the informer told the replica of the child) is rejected. -/
+theorem delete_after_child_rejected (s : Topo) (q : QI) (lp : Bool) :
+    (validDelete (addState s q) q.parent lp).2 = false := by
+  have hk : hasKids (addState s q) q.parent = true := by simp [hasKids, addState]
+  rw [validDelete_sections]
+  simp [delCheck, hk]
+
+theorem onAdd_hasKids (s : Topo) (q : QI) : hasKids (onAdd s q) q.parent = true := by simp [hasKids, onAdd]
+
+/-- THE PROPERTY OF THE RACE: under the code's lock shape, whatever the schedule, the delete of quota `n` and the
+    concurrent create of a child under `n` are never BOTH admitted. -/
+theorem race_atomic_not_both (d n : Nat) (lp : Bool) (r : Raw) (hn : r.name ≠ 0) (hp : (decodeQI r).parent = n)
+    (s0 : Topo) (sched : List Bool) :
+    let c := raceExec d .atomic n lp (.req (.add r)) { s := s0 } sched
+    c.pc = 4 → ¬ (c.dres = some true ∧ c.ores = some true) := by
+  intro c hpc hboth
+  have hsome : c.ores.isSome = true := by rw [hboth.2]; rfl
+  have hname : (decodeQI r).name ≠ 0 := hn
+  rcases race_atomic_linearizable d n lp (.req (.add r)) s0 sched hpc hsome with ⟨_, hd, ho⟩ | ⟨_, hd, ho⟩
+  · -- the create first: it is admitted, so the quota has a child when the delete checks
+    rw [hboth.2] at ho
+    rw [hboth.1] at hd
+    simp only [otherRun, stepRaw, decodeOp, step, Option.some.injEq] at ho hd
+    obtain ⟨_, _, _, _, hst⟩ := validAdd_true ho.symm
+    rw [hst, ← hp, delete_after_child_rejected] at hd
+    cases hd
+  · -- the delete first: the parent is gone when the create is decided
+    rw [hboth.2] at ho
+    rw [hboth.1] at hd
+    simp only [otherRun, stepRaw, decodeOp, step, Option.some.injEq] at ho hd
+    rw [child_after_delete_rejected d s0 n lp (decodeQI r) _ hd.symm hp hname] at ho
+    cases ho
+
+/-- the informer variant: an OnQuotaAdd of a child under `n` that ran before the delete's verdict makes the delete fail;
+    with an admitted delete the event was applied after the removal (a late event). -/
+theorem race_atomic_informer_add (d n : Nat) (lp : Bool) (q : QI) (hp : q.parent = n) (s0 : Topo) (sched : List Bool) :
+    let c := raceExec d .atomic n lp (.ev (.add q)) { s := s0 } sched
+    c.pc = 4 → c.ores.isSome = true → c.dres = some true → c.s = onAdd (validDelete s0 n lp).1 q := by
+  intro c hpc hsome hd
+  rcases race_atomic_linearizable d n lp (.ev (.add q)) s0 sched hpc hsome with ⟨_, hd', _⟩ | ⟨hs, _, _⟩
+  · rw [hd] at hd'
+    simp only [otherRun, applyEv, Option.some.injEq] at hd'
+    have hk := onAdd_hasKids s0 q
+    rw [validDelete_sections] at hd'
+    simp [delCheck, hp ▸ hk] at hd'
+  · simpa [otherRun, applyEv] using hs
+
 /-! ### 19. the unchanged-fields shortcut sees zero-valued entries (round 4; Ties: tie_unchanged_fields_copy) -/
 
 /-- the shortcut applies only when the spec maps are IDENTICAL — key sets included. -/
